@@ -97,6 +97,11 @@ char *strdup(const char *s)
     return r;
 }
 
+/* isspace() of the "C" locale on the byte as unsigned char (what str.c passes), as a macro for loop invariants */
+#define VSTR_ISSPACE(c) ((spif_uchar_t) (c) == ' ' || ((spif_uchar_t) (c) >= '\t' && (spif_uchar_t) (c) <= '\r'))
+#define VSTR_TOLOWER(c) (((c) >= 'A' && (c) <= 'Z') ? (c) + 32 : (c))
+#define VSTR_TOUPPER(c) (((c) >= 'a' && (c) <= 'z') ? (c) - 32 : (c))
+
 /* ---- memmove / memcpy -------------------------------------------------------------
  * cbmc's own memmove model (symbolic length, overlapping regions of one object) and chains of several
  * memcpy calls (splice) exhaust memory / time on every back end.  Units that define VSTR_OWN_MEMMOVE /
